@@ -127,6 +127,34 @@ class Env:
         self.exit_filter = None   # optional block -> bool: which return blocks count
 
 
+def variant_of(t, names=None):
+    """the enum variant a term is KNOWN to have, or None"""
+    tag = t[0]
+    v = None
+    if tag == "agg" and t[2] is not None:
+        v = t[2]
+    elif tag == "opt":
+        v = "Some" if not t[2] else None
+    elif tag == "none":
+        v = "None"
+    elif tag == "from_residual":
+        if names:
+            v = "None" if "None" in names else ("Err" if "Err" in names else None)
+    elif tag == "cf":
+        inner = variant_of(t[1], None)
+        if inner in ("Ok", "Some"):
+            v = "Continue"
+        elif inner in ("Err", "None"):
+            v = "Break"
+    elif tag == "phi":
+        vs = set(variant_of(a, names) for a in t[1] if a != ("unreachable",))
+        if len(vs) == 1:
+            v = vs.pop()
+    if v is not None and names is not None and v not in names:
+        return None
+    return v
+
+
 def is_prefix(a, b):
     return len(a) <= len(b) and b[: len(a)] == a
 
@@ -562,6 +590,72 @@ class Eval:
         env.memo[ck] = v
         return v
 
+    # ------------------------------------------------------------------ #
+    # inlining with partial evaluation of variant tests
+    # ------------------------------------------------------------------ #
+    specialise_on = True
+
+    def inline_env(self, cb, args, depth):
+        """environment for evaluating `cb` on `args`. A `match` whose scrutinee has a KNOWN variant for
+        these arguments (an aggregate built by the caller, Some(..)/None, the residual of `?`) can take
+        only one arm: such switches are replaced by gotos (a pruned copy of the body), so that neither
+        values nor effects nor guards of the other arms are attributed to this call."""
+        env = Env(cb, args, depth)
+        if not self.specialise_on:
+            return env
+        sws = cb.discr_switches()
+        if not sws:
+            return env
+        fixed = {}
+        saved = (self.site_conds, self.site_terms, self.ctx)
+        for _ in range(4):
+            new = {}
+            live = env.body.live_blocks()
+            self.site_conds, self.site_terms, self.ctx = {}, {}, Ctx()
+            try:
+                for (b, si, pk, variants) in sws:
+                    if b in fixed or b not in live:
+                        continue
+                    try:
+                        t = self.lookup(env, pk, (b, si))
+                    except RecursionError:
+                        continue
+                    vn = variant_of(t, [n for _, n in variants])
+                    if vn is None:
+                        continue
+                    val = [v for v, n in variants if n == vn]
+                    if not val:
+                        continue
+                    term = cb.blocks[b]["term"]
+                    listed = dict((v, tg) for v, tg in term["targets"])
+                    new[b] = listed.get(val[0], term["otherwise"])
+            finally:
+                self.site_conds, self.site_terms, self.ctx = saved
+            if not new:
+                break
+            fixed.update(new)
+            env = Env(cb.pruned_multi(fixed), args, depth)
+        return env
+
+    def inline_ret(self, cb, args, depth):
+        """return value of `cb` on `args` (dict local -> term); an argument that is a merge of
+        alternatives with different known variants is split (one evaluation per alternative)"""
+        for i, a in sorted(args.items()):
+            if a[0] == "phi" and 1 < len(a[1]) <= 4 and depth < self.max_inline:
+                vs = [variant_of(x, None) for x in a[1]]
+                if all(v is not None for v in vs) and len(set(vs)) > 1 and cb.discr_switches():
+                    alts = []
+                    for x in a[1]:
+                        a2 = dict(args)
+                        a2[i] = x
+                        r = self.inline_ret(cb, a2, depth)
+                        for y in (r[1] if r[0] == "phi" else (r,)):
+                            if y not in alts:
+                                alts.append(y)
+                    alts = [y for y in alts if y != ("unreachable",)] or alts
+                    return alts[0] if len(alts) == 1 else ("phi", tuple(alts))
+        return self.ret_val(self.inline_env(cb, args, depth))
+
     def apply(self, f, args, site, env):
         """apply a callable term to already evaluated args"""
         if f[0] == "closure":
@@ -571,11 +665,11 @@ class Eval:
             a = {1: f}
             for i, x in enumerate(args):
                 a[2 + i] = x
-            return self.ret_val(Env(cb, a, env.depth + 1))
+            return self.inline_ret(cb, a, env.depth + 1)
         if f[0] == "fnref" and f[2] and f[2] in self.facts.bodies and f[2] not in self.opaque:
             cb = self.facts.bodies[f[2]]
             if env.depth < self.max_inline:
-                return self.ret_val(Env(cb, {i + 1: x for i, x in enumerate(args)}, env.depth + 1))
+                return self.inline_ret(cb, {i + 1: x for i, x in enumerate(args)}, env.depth + 1)
         return ("call", "apply", None, (f,) + tuple(args), site)
 
     presence_hook = None   # set by core: (ev, env, block) -> set of conditions holding at block
@@ -698,7 +792,7 @@ class Eval:
         key = fn.get("resolved_key") or fn.get("key")
         if key and key in self.facts.bodies and key not in self.opaque and env.depth < self.max_inline:
             cb = self.facts.bodies[key]
-            return self.ret_val(Env(cb, {i + 1: x for i, x in enumerate(args)}, env.depth + 1))
+            return self.inline_ret(cb, {i + 1: x for i, x in enumerate(args)}, env.depth + 1)
         # ---- iteration ----
         if cid == "std::iter::Iterator::next":
             return ("opt", ("elem", args[0]), frozenset([("has_next", args[0])]))
